@@ -53,6 +53,13 @@ def run(R):
             i = R.rng.randrange(len(s)); s = s[:i] + bytes([R.rng.randrange(1, 256)]) + s[i:]
         if len(s) == 0: continue
         add("K " + hx(s), "status=%d" % classify(s))
+    # long strings: the classification depends on the tag and the character set only, never on the length (seeded/C18):
+    # every prefix (and some unknown ones) followed by legal filler up to lengths around CRYPT_OUTPUT_SIZE and far beyond
+    for base in list(PREFIXES.values()) + [b"ab", b"$zz$", b"*0"]:
+        for n in ([191, 192, 383, 384, 385, 511, 512, 4096, 70000] if quick else list(range(370, 400)) + [191, 192, 511, 512, 513, 1000, 4096, 32768, 70000]):
+            if n <= len(base): continue
+            s = base + bytes(R.rng.choice(b"./0123456789abcdefghijklmnopqrstuvwxyzABCDEFGHIJKLMNOPQRSTUVWXYZ") for _ in range(n - len(base)))
+            add("K " + hx(s), "status=%d" % classify(s))
     add("P", None)
     rb = bytes(R.rng.randrange(256) for _ in range(64))
     for c in (0, 5, 11, 12):
@@ -94,7 +101,8 @@ def run(R):
                 bad.append((pairs[i], "crypt_gensalt(NULL) differs from crypt_gensalt(preferred): %s vs %s" % (out[i], out[i + 1]), out[i]))
     R.cov["evaluations"] = n_strings
     R.cov["exhaustive"] = True
-    R.cov["rule"] = ("every byte string (bytes 1..255) of length <= %d, 4-byte strings starting with '$' or '_' (%s), random longer strings; "
+    R.cov["rule"] = ("every byte string (bytes 1..255) of length <= %d, 4-byte strings starting with '$' or '_' (%s), random longer strings, every tag with filler "
+                     "to lengths 191..70000 (around CRYPT_GENSALT_OUTPUT_SIZE, CRYPT_OUTPUT_SIZE, CRYPT_MAX_PASSPHRASE_SIZE); "
                      "non-trivial = strings whose class is not INVALID-by-character" % (2 if quick else 3, "sampled 2nd/3rd bytes" if quick else "all"))
     R.cov["distinct_nontrivial"] = sum(1 for op in ops if op.startswith("K ") and op != "K -" and classify(unhx(op.split(" ")[1])) != 1) + \
         sum(int(fields(l).get("n0", 0)) + int(fields(l).get("n3", 0)) for op, l in zip(ops, il) if op.startswith("KE"))
